@@ -13,7 +13,7 @@ from sympy.physics import units
 from sympy.physics.units import Quantity as SymQuantity
 from sympy.physics.units.prefixes import Prefix
 
-from vp import coqrun, qx
+from vp import common, coqrun, qx
 from props.c04 import rand_dimvec as _rand_dimvec4, unit_expr_from_vec as _unit_expr4, dimension_from_vec, base_units
 
 
@@ -170,6 +170,9 @@ def in_modelled_domain(expr) -> bool:
             vals.append(v)
         if isinstance(e, Pow) and getattr(vals[1], "is_number", False) and abs(vals[1]) > 12:
             return False, None   # huge powers: outside anything the catalogue does, and slow
+        if isinstance(e, Pow) and getattr(vals[1], "is_Rational", False) and not vals[1].is_Integer and getattr(vals[0], "is_Rational", False) \
+                and max(abs(vals[0].p), vals[0].q) > 10**15:
+            return False, None   # a root of a huge rational: SymPy factors the number first (minutes)
         try:
             v = e.func(*vals)
             k = qx.val_class(v)[0]
@@ -187,7 +190,11 @@ def in_modelled_domain(expr) -> bool:
         if isinstance(e, (Add, Mul)) or isinstance(e, sympy.Function):
             return True, v
         return False, None
-    return walk(sympy.sympify(expr))[0]
+    try:
+        with common.time_limit(5):
+            return walk(sympy.sympify(expr))[0]
+    except common.SlowEvaluation:
+        return False   # SymPy itself needs more than 5 s to evaluate the tree on plain numbers (e.g. a root of a 60-digit integer)
 
 
 def malformed(rng):
@@ -272,6 +279,7 @@ def boundary(rng, k=None):
 # fixed order (what the model reads) and by ordinary evaluation (what Quantity(...) receives) -- and the two must agree on
 # the value and, unless that value is of any dimension, on the dimension.
 
+EXTREME_SIGNED = [Rational(1, 10**30), -Rational(1, 10**30), Integer(10)**30, -Integer(10)**30, Rational(-5, 3), Rational(7, 9)]
 EV_VALUES = [0, 1, 3, -3, Rational(1, 2), Rational(-7, 2), 5, -1, oo, -oo, oo, 10**6]
 
 
@@ -352,6 +360,9 @@ def evalbuild_cases(ctx, n):
         ("add", [("q", Quantity(3 * m)), ("max", [("q", Quantity(oo * m)), ("num", S.Zero)])]),
         ("abs", ("q", Quantity(-oo, dimension=units.mass))),
         ("max", [("q", Quantity(3 * m)), ("num", S.Zero)]),
+        ("max", [("q", Quantity(-Rational(1, 10**400) * m)), ("num", S.Zero)]),      # below the double range: -0.0 as a float
+        ("min", [("q", Quantity(-Rational(1, 10**400) * m)), ("num", S.Zero)]),
+        ("min", [("q", Quantity(Integer(10)**400 * m)), ("num", S.Zero)]),
         ("min", [("q", Quantity(-3 * m)), ("num", S.Zero)]),
         ("max", [("q", Quantity(0 * m)), ("num", S.Zero)]),
         ("pow", ("abs", ("q", Quantity(-2 * m))), 2),
@@ -394,6 +405,30 @@ def evalbuild_cases(ctx, n):
             "desc": f"{un} with { {str(q): str(q.scale_factor) for q in un.atoms(SymQuantity)} }, built by evaluation as {shown}",
             "value": str(ev_value(t))})
     return out, skipped
+
+
+def sign_cases(ctx, n):
+    """Quantity(...).is_positive on seeded values of every class vs Model/QSign.qty_is_positive"""
+    from symplyphysics import Quantity  # pylint: disable=import-outside-toplevel
+    rng = ctx.rng
+    vals = [S.Zero, Float(0.0), oo, -oo, nan, zoo, Integer(1), Integer(-1), Rational(1, 10**400), -Rational(1, 10**400),
+        Integer(10)**400, -Integer(10)**400, Float(2.5), Float(-2.5), Rational(-3, 7)]
+    for _ in range(n):
+        vals.append(rng.choice(MAGS + EXTREME_SIGNED))
+    out = []
+    for v in vals:
+        vec, _a = rand_dimvec(rng)
+        try:
+            q = Quantity(v, dimension=dimension_from_vec(tuple(Fraction(int(x)) for x in vec), Fraction(0), rng))
+            claim = q.is_positive
+            cls = qx.val_class(q.scale_factor)
+        except Exception as e:  # pylint: disable=broad-except
+            continue
+        if cls[0] in ("Other",):
+            continue
+        olit = "None" if claim is None else ("(Some true)" if claim else "(Some false)")
+        out.append({"lit": f"({qx.val_lit(cls)}, {olit})", "desc": f"Quantity({v}).is_positive = {claim}", "claim": claim, "value": str(v)})
+    return out
 
 
 # ---- specification predicate, written from the property text (used only after a disagreement) ------
@@ -486,7 +521,7 @@ def spec_contradicted(expr, obs):
 STATIC = ["C05_collect_value", "C05_add_accepts_iff", "C05_add_order_irrelevant", "C05_sum_dim", "C05_minmax_accepts",
     "C05_child_error_refuses", "C05_mul_spec", "C05_pow_spec", "C05_fun_accepts_iff", "C05_leaf_refusals",
     "C05_quantity_ctor_spec", "C05_cancelling_prefix_refused", "C05_accepts_iff_WF", "C05_refuses_iff_not_WF",
-    "C05_order_irrelevant", "C05_dim_is_product"]
+    "C05_order_irrelevant", "C05_dim_is_product", "C05_sign_claim_sound", "C05_sign_claim_rewrites", "C05_sign_claim_complete"]
 
 
 def build_cases(ctx, n_valid, n_bad, n_boundary):
@@ -586,6 +621,17 @@ def run(ctx):
              "value_of_expression": c["value"], "observed": {"collect(unevaluated)": str(c["obs"]), "Quantity(evaluated)": str(c["obs2"])},
              "theorem_or_tie": "correspondence CollectQ.quantity_ctor (on the tree as written) ~ Quantity(tree built by ordinary evaluation)"},
             True)
+    sg = sign_cases(ctx, ctx.pick(40, 400))
+    bad_sg = coqrun.eval_cases(ctx, "sign", "From VP Require Import Model.QSign.\n" + qx.PREAMBLE_COLLECT, [c["lit"] for c in sg],
+        "fun c : val * option bool => match qty_is_positive (fst c), snd c with Some a, Some b => Bool.eqb a b | None, _ => true "
+        "| Some _, None => false end")
+    for i in bad_sg[:10]:
+        c = sg[i]
+        ctx.violation(f"C05:sign:{c['lit']}", f"{c['desc']}: the sign claim published to SymPy differs from the model (a positive value must never "
+            "be denied, a negative one never claimed positive)", {"kind": "disagreement", "stream": "sign", "value": c["value"],
+            "observed_is_positive": str(c["claim"]), "gallina": c["lit"],
+            "theorem_or_tie": "correspondence QSign.qty_is_positive ~ Quantity._eval_is_positive"}, True)
+    hist[("sign", "compared")] = len(sg)
     hist[("evalbuild", "compared")] = len(ev)
     hist[("evalbuild", "skipped-nan-zoo-or-irrational")] = ev_skipped
     cases = cases + ev
